@@ -376,7 +376,7 @@ func genNative(t *rapid.T, w gen.World, o gen.Opts, c *Case) m.Request {
 
 func genCase(t *rapid.T) Case {
 	o := worldOpts()
-	w := gen.GenWorld(t, o)
+	w := gen.AnyWorld(t, o)
 	renameParams(t, &w)
 	mo := w.Model
 	c := Case{World: w}
